@@ -2,6 +2,7 @@ import KmipProps.C04
 import KmipModel.Stream
 import KmipProofs.IoLemmas
 import KmipProofs.IoStackLemmas
+import KmipProofs.DecodeStackSim
 /-
   C06 — message framing on a stream is independent of how the transport fragments bytes.
 
@@ -371,5 +372,93 @@ example : viewStack ((Io.Stack.src ⟨List.replicate 100 [] ++ [[9]], .eof, fals
     reader pass that error on where the flat view ends in EOF (the trailing optional fields of the structure then fail) -/
 example : ((Io.Stack.lim (.src ⟨[[1, 2]], .ioerr, true⟩) 2).read 8).2.1 = some .other ∧
     (Io.Stack.lim (.src ⟨[[1, 2]], .ioerr, true⟩) 2).fin = .eof := by decide
+
+/-! ### Decode itself over the reader stack
+
+`Kmip.Stk` (KmipModel/DecodeStack.lean) is decode.go once more, reading through the real reader stack - its own bufio.Reader, a
+limit reader and a further bufio per nested structure, 4096-byte chunks for string payloads, the outer reader picked up again
+after each structure.  `Stk.S_sim` (KmipProofs/DecodeStackSim.lean) proves by induction along decode.go's recursion that it
+computes what the flat decoder model computes.  Stated here in plain terms. -/
+
+def viewS : Outcome (Val × Nat × Stk.SDec) → Outcome (Val × Nat × Bytes × ErrClass × Nat)
+  | .ok (v, n, x) => .ok (v, n, x.s.content, x.s.fin, x.last)
+  | .err e => .err e
+  | .panic _ => .panic ""
+
+def viewD : Outcome (Val × Nat × Dec) → Outcome (Val × Nat × Bytes × ErrClass × Nat)
+  | .ok (v, n, d) => .ok (v, n, d.win, d.fin.err, d.last)
+  | .err e => .err e
+  | .panic _ => .panic ""
+
+theorem view_of_rel {s0 : Io.Stack} {o1 : Outcome (Val × Nat × Dec)} {o2 : Outcome (Val × Nat × Stk.SDec)}
+    (h : Stk.RelW Stk.P2d Stk.P2s s0 o1 o2) : viewS o2 = viewD o1 := by
+  cases o1 with
+  | ok a =>
+    cases o2 with
+    | ok b =>
+      obtain ⟨v, n, d⟩ := a
+      obtain ⟨v', n', x⟩ := b
+      obtain ⟨e1, ⟨hw, hf, _, _, hl⟩, _⟩ := h
+      simp only [Prod.mk.injEq] at e1 hw hf hl
+      obtain ⟨rfl, rfl⟩ := e1
+      simp [viewS, viewD, hw, hf, hl]
+    | err e => simp [Stk.RelW] at h
+    | panic p => simp [Stk.RelW] at h
+  | err e =>
+    cases o2 with
+    | ok b => simp [Stk.RelW] at h
+    | err e' => simp only [Stk.RelW] at h; simp [viewS, viewD, h]
+    | panic p => simp [Stk.RelW] at h
+  | panic p =>
+    cases o2 with
+    | ok b => simp [Stk.RelW] at h
+    | err e' => simp [Stk.RelW] at h
+    | panic p' => rfl
+
+/-- **One Decode call, any decoder state.**  A Decoder standing anywhere in a stream (`x`: its reader stack and lookahead tag) and
+    the flat model standing at the same place (`Stk.Sim`: same bytes to come, same final error, same lookahead): decoding a
+    structure gives the same value, the same byte count, and leaves both at the same place again - or fails in the same class. -/
+theorem C06_decode_step (sd : SD) (tag : Nat) (d : Dec) (x : Stk.SDec) (h : Stk.Sim d x) :
+    viewS (Stk.decStruct tag sd x) = viewD (decStruct tag sd d) ∧
+    (∀ v n d' x', decStruct tag sd d = .ok (v, n, d') → Stk.decStruct tag sd x = .ok (v, n, x') → Stk.Sim d' x') := by
+  have hr := Stk.S_sim sd tag d x h
+  refine ⟨view_of_rel hr, ?_⟩
+  intro v n d' x' h1 h2
+  rw [h1, h2] at hr
+  exact hr.2.1
+
+/-- **Fragmentation independence of Decode.**  `NewDecoder(src).Decode(&v)` on a transport that delivers its bytes in ANY chunks
+    (zero-length reads, one byte at a time, the last data together with EOF; guard: `Stack.Inv`) returns exactly what the flat
+    decoder model returns on the concatenation of the chunks - the value, the count `8 + declared length`, and a Decoder that
+    stands at the first byte after the message. -/
+theorem C06_decode_over_any_chunking (sd : SD) (src : Io.Src) (hi : (Io.Stack.top src).Inv) :
+    viewS (Stk.decodeSrc sd src) = viewD (decodeSD sd src.flat src.fin) := by
+  unfold Stk.decodeSrc decodeSD decodeTop
+  by_cases hd : sd.descOk = true
+  · simp only [hd, if_true]
+    refine (C06_decode_step sd sd.tag ⟨src.flat, src.fin, 0⟩ ⟨Io.Stack.top src, 0⟩ ?_).1
+    exact ⟨by simp [Io.Stack.top, Io.Stack.content], rfl, hi, by trivial, rfl⟩
+  · simp [hd, viewS, viewD]
+
+/-- two transports carrying the same bytes and ending the same way, fragmented differently: Decode cannot tell them apart -/
+theorem C06_decode_chunking_irrelevant (sd : SD) (src₁ src₂ : Io.Src) (h₁ : (Io.Stack.top src₁).Inv) (h₂ : (Io.Stack.top src₂).Inv)
+    (hb : src₁.flat = src₂.flat) (hf : src₁.fin = src₂.fin) :
+    viewS (Stk.decodeSrc sd src₁) = viewS (Stk.decodeSrc sd src₂) := by
+  rw [C06_decode_over_any_chunking sd src₁ h₁, C06_decode_over_any_chunking sd src₂ h₂, hb, hf]
+
+/-- non-vacuity: a Protocol Version structure (two required integers) delivered in seven reads - single bytes, empty reads, a
+    split inside a length field, the last bytes together with EOF, and three bytes of a following message - decodes through the
+    real stack to the value, the count 40, and a Decoder standing at those three bytes -/
+def exPV : SD := .mk "ProtocolVersion" 0x420069
+  [.mk "Major" 0x42006A true false false (.prim .int), .mk "Minor" 0x42006B true false false (.prim .int)]
+
+def exPVsrc : Io.Src :=
+  ⟨[[0x42], [0x00, 0x69, 0x01, 0, 0], [], [0, 0x20, 0x42, 0x00, 0x6A, 0x02, 0, 0, 0, 4, 0, 0, 0, 1, 0, 0, 0, 0], [], [0x42, 0x00, 0x6B, 0x02, 0, 0],
+    [0, 4, 0, 0, 0, 4, 0, 0, 0, 0, 0x42, 0x00, 0x78]], .eof, true⟩
+
+example : (Io.Stack.top exPVsrc).Inv := ⟨⟨by intro _; rfl, by decide⟩, by decide, by intro e h; cases h⟩
+
+set_option maxRecDepth 100000 in
+example : viewS (Stk.decodeSrc exPV exPVsrc) = .ok (.struct [.one (.int 1), .one (.int 4)], 40, [0x42, 0x00, 0x78], .eof, 0) := by rfl
 
 end Kmip
